@@ -158,3 +158,13 @@ def run(ctx, b, drv):
     pend.flush()
     ctx.cov['rule'] = ('edit histories of 4-8 texts (line delete/duplicate/insert, in-line fragment splice, re-indent, join lines, block delete, undo) over valid/corpus/one-liner '
                        'seeds x 9 versions, parsed under one path with diff_cache=True; distinct = distinct history')
+
+
+def replay(ctx, rp):
+    """re-run a recorded edit history against the current /repo"""
+    if rp.get('kind') != 'history' or not rp.get('steps'):
+        return 'not-an-input-replay: run ./check C04 to re-decide'
+    before = len(ctx.violations)
+    check_history(ctx, rp.get('version', '3.10'), rp['steps'], 999999, [])
+    new = ctx.violations[before:]
+    return new[0]['signature'] if new else None
